@@ -276,7 +276,7 @@ require (
 	lukechampine.com/blake3 v1.1.7 // indirect
 )
 
-require github.com/idena-network/idena-wasm-binding v0.0.0-20230503080211-4227b9778d3d // indirect
+require github.com/idena-network/idena-wasm-binding v0.0.0-20230503080211-4227b9778d3d
 
 replace github.com/idena-network/idena-go => /repo
 
